@@ -15,12 +15,14 @@ func init() {
 
 func runC05(r *engine.Run) {
 	r.Rule("DOM-cancel", "AddChange removes the new node's hash from the dead set (delete(cc.Deletes, newNode.GetHash())) on every path from entry to every return: re-created content is never left recorded as dead; dead records are keyed by the hash of the node they hold")
+	r.Rule("FRESH-bytes", "see C03: the byte slices handed out by the node accessors (MarshalMsg, Encode, GetHashBytes, GetValueBytes in core/util) are new buffers on every return: nil, make/conversion results, results of calls that produce new buffers, or appends to such; never a field, element, global or map entry. FRESH-node relies on this, and callers of GetNodeValueRaw own (and may overwrite) the slice they get")
 	r.Rule("FRESH-node", "see C03: a node object held in the dead set is never rewritten afterwards (its hash is computed on demand, so the dead record would name the live rewritten node)")
 	r.Rule("DEP-origin", "every trie node's hash pre-image starts with its origin (see C02 AGREE-hash): a hash recorded dead in one round cannot name a node created in a later round")
 	r.Rule("DOM-prune", "in PruneBelowVersion a dead-node record is handed to the deleter only when its round (decoded from the record key) is strictly below the version argument; the keys deleted from the node column family and the rounds dropped from the dead-nodes column family have the channel receive as their only provenance; records are dropped only after all node deletes; record keys/rounds and column families agree between writer (RecordDeadNodes/saveDeadNodes), reader (iteratorDeadNodes) and deleter")
 	r.Rule("AGREE-roundkey", "uint64ToBytes (writer) and bytesToUint64 (reader) use the same, big-endian byte order (the early break of the prune iteration relies on ascending key order)")
 	r.Rule("WHO-livedelete", "see C04: a node the rebuilt trie still references is never handed to deleteNode (it would be recorded dead while reachable)")
 	r.Rule("DOM-samekey", "see C04: an unchanged re-write is not reported to the change collector (its hash would enter the dead set while live)")
+	r.Rule("DOM-recordwritten", "recording a round's dead nodes replaces the round's record: every return of saveDeadNodes is the result of the PutCF on the dead-nodes column family or an error that is non-nil on that path, and every return of RecordDeadNodes is the result of saveDeadNodes or such an error (no success shortcut, e.g. for an empty set, that would leave an abandoned execution's record in place)")
 	r.Rule("DEP-recordonly", "in RecordDeadNodes the record object is filled only by map stores whose keys derive from the nodes argument and is handed only to saveDeadNodes: the record of a round is exactly what this execution of the round reported (no merge with an earlier record of the same round)")
 	r.Rule("DOM-mergeall", "see C03: a change skipped by mergeChanges is never taken out of the dead set again (AddChange is what revives a re-created node)")
 	r.NotDec = append(r.NotDec, "reachability of recorded nodes from later roots (graph property of runtime content)")
@@ -32,6 +34,7 @@ func runC05(r *engine.Run) {
 	whoLiveDelete(r, "WHO-livedelete")
 	domSameKey(r, "DOM-samekey")
 	depRecordOnly(r, "DEP-recordonly")
+	domRecordWritten(r, "DOM-recordwritten")
 	domMergeAll(r, "DOM-mergeall")
 }
 
@@ -423,4 +426,76 @@ func depRecordOnly(r *engine.Run, rule string) {
 	})
 	r.Check(bad == "" && saved, rule, fn(f)+"|record content", r.P.Pos(f.Pos()), "the record holds exactly the hashes of the nodes argument and goes to saveDeadNodes",
 		"the dead-node record of a round is not built from this execution's nodes alone ("+bad+"): hashes reported by an earlier, abandoned execution of the same round are pruned although the saved state still uses them")
+}
+
+// domRecordWritten: recording the dead nodes of a round REPLACES whatever record
+// the round had (an abandoned execution of the same round may have left one).
+// That holds only if every successful return of RecordDeadNodes / saveDeadNodes
+// went through the store write: a shortcut for an empty set ("nothing to
+// record") leaves the abandoned execution's record in place, and a later prune
+// deletes nodes the surviving state still uses.
+//
+// Rule: in saveDeadNodes every return is either the result of the PutCF on the
+// dead-nodes column family or an error that is non-nil on that path; in
+// RecordDeadNodes every return is the result of saveDeadNodes or such an error.
+func domRecordWritten(r *engine.Run, rule string) {
+	type spec struct {
+		fn    string
+		write func(c *ssa.Call) bool
+		what  string
+	}
+	specs := []spec{
+		{"saveDeadNodes", func(c *ssa.Call) bool { return extCalleeIs(c, "grocksdb", "DB", "PutCF") }, "the store write (PutCF)"},
+		{"RecordDeadNodes", func(c *ssa.Call) bool { return staticCalleeIs(c, pkgUtil, "PNodeDB", "saveDeadNodes") }, "saveDeadNodes"},
+	}
+	n := 0
+	for _, s := range specs {
+		f := r.Fn(rule, pkgUtil, "PNodeDB", s.fn)
+		if f == nil {
+			continue
+		}
+		o := ord{}
+		for _, ret := range engine.Returns(f) {
+			if len(ret.Results) != 1 || ret.Block() == f.Recover {
+				continue
+			}
+			n++
+			v := resultValue(ret, 0)
+			ok := false
+			var check func(v ssa.Value) bool
+			seen := map[ssa.Value]bool{}
+			check = func(v ssa.Value) bool {
+				if seen[v] {
+					return true
+				}
+				seen[v] = true
+				if c, isCall := v.(*ssa.Call); isCall && s.write(c) {
+					return true
+				}
+				if ph, isPhi := v.(*ssa.Phi); isPhi {
+					for _, e := range ph.Edges {
+						if !check(e) {
+							return false
+						}
+					}
+					return true
+				}
+				return globalErrName(v) != "" || provablyNonNil(f, ret.Block(), v)
+			}
+			ok = check(v)
+			if !ok {
+				// "if err := write(); err != nil { return err }; return nil": the write is on every path to this return
+				engine.Instrs(f, func(in ssa.Instruction) {
+					if c, isCall := in.(*ssa.Call); isCall && s.write(c) && c.Block().Dominates(ret.Block()) {
+						ok = true
+					}
+				})
+			}
+			r.Check(ok, rule, o.next(fn(f)+"|return"), r.P.Pos(ret.Pos()), "the return follows "+s.what+" on every path or is an error that is non-nil here",
+				fn(f)+" can report success without going through "+s.what+": the round's record is not replaced, so the record an abandoned execution of the same round left behind survives and a later prune deletes nodes the surviving state still uses")
+		}
+	}
+	if n < 3 {
+		r.Anchor(rule, fmt.Errorf("unresolved anchor: only %d returns of RecordDeadNodes/saveDeadNodes", n))
+	}
 }
